@@ -4,6 +4,7 @@ CONSTANTS
   Large = FALSE
   NV = 1
   NodeCap = 1
+  PairK = 0
   MaxMut = 0
   GenMode = "none"
 CONSTRAINT Done
